@@ -9,7 +9,11 @@ META = {
                    "placeholders, and every SeedableRng seed derives from entropy, an OT output, a generator output or a coin toss that "
                    "includes an own contribution; (R6.2) Context.inputs is read only in validate and input_processing and reaches a payload "
                    "only through `input ^ own_share`; (R6.3) a mask share is stored only into the buffer of the wire's owner and never for "
-                   "the own party. Distributional statements (balance, uniqueness across runs) are not decided.",
+                   "the own party; (R6.5) the only other message that carries bits of the share table, `output wire shares`, is filled only "
+                   "at slots indexed by Circuit.output_regs (the mask share of a register that is not an output - in particular of an own "
+                   "input wire - is never sent); (R6.6) in the secret-creating functions a vector allocated with a constant placeholder and filled from "
+                   "random data through zip has a zip partner whose length is computed from the vector's own length (zip truncates silently). "
+                   "Distributional statements (balance, uniqueness across runs) are not decided.",
     "assumptions": ["rand::random / ThreadRng / Scalar::random are cryptographically secure", "the property's statistical clauses (N>=200 runs) need execution"],
 }
 
@@ -19,3 +23,33 @@ def run(ctx, res):
     r6.rule_entropy(S, res)
     r6.rule_input_flow(S, res)
     r6.rule_own_share_home(S, res)
+    rule_output_slots(ctx, S, res)
+    r6.rule_placeholder_overwritten(S, res)
+
+
+class _Renamed:
+    """Result proxy: reports instances of a shared rule under this property's rule id."""
+
+    def __init__(self, res, frm, to):
+        self._res, self._frm, self._to = res, frm, to
+
+    def __getattr__(self, name):
+        return getattr(self._res, name)
+
+    def bad(self, rule, inst, msg, *a, **kw):
+        if kw.get("key"):
+            kw["key"] = kw["key"].replace(self._frm, self._to)
+        return self._res.bad(rule.replace(self._frm, self._to), inst, msg + " - the mask share of a register that is not an output (e.g. an own input wire) would be disclosed", *a, **kw)
+
+    def ok(self, rule, *a, **kw):
+        return self._res.ok(rule.replace(self._frm, self._to), *a, **kw)
+
+
+def rule_output_slots(ctx, S, res):
+    """R6.5: share bits leave in `output wire shares` only for output registers (same structural fact
+    as C05's R5.slot, which is a necessary condition for both properties)."""
+    from props import c05
+    sites = [s for s in S.inv.direct_sites() if s.body.owner == "polytune::mpc::protocol::output" and "output wire shares" in (s.label or []) and s.kind == "send"]
+    res.need("R6.5", "output_wire_share_sends", len(sites), 1, "send sites of `output wire shares`")
+    for s in sites:
+        c05.check_payload_slots(S.fg, s, _Renamed(res, "R5.slot", "R6.5"), "output wire shares")
